@@ -183,7 +183,7 @@ impl<W: WorldOps> Engine<W> {
         }
         for q in 0..self.queries.len() {
             let expect = self.expect_query(wi, q);
-            for mode in 0..3 {
+            for mode in 0..QUERY_MODES.len() {
                 let mut visits: Vec<Visit> = Vec::new();
                 let res = {
                     let s = self.worlds[wi].as_mut().unwrap();
@@ -211,7 +211,7 @@ impl<W: WorldOps> Engine<W> {
     /// Break at the k-th closure call must end the whole query at once.
     pub fn op_break(&mut self, wi: usize) {
         let q = self.rng.below(self.queries.len());
-        let mode = self.rng.below(3);
+        let mode = self.rng.below(QUERY_MODES.len());
         let expect = self.expect_query(wi, q);
         let total = expect.len();
         if total == 0 {
